@@ -39,10 +39,10 @@ def tasks(tier, seed):
                    reach=('end',), bounds='one corrupted object header; all 2^32 sizes x 6 type codes',
                    kinds={'memory', 'assert', 'uncaught_exception', 'terminate', 'deadlock', 'hang', 'limit', 'trap', 'leak'}))
     csrc = open(os.path.join(HERE, 'harness', 'c10_container_hostile.cpp')).read()
-    variants = [(0, 0, 1), (0, 0, 2), (0, 0, 4), (6, 0, 1), (6, 0, 4), (0, 1, 0)]
+    variants = [(0, 0, 1), (0, 0, 2), (0, 0, 4), (6, 0, 1), (6, 0, 4), (0, 1, 0), (0, 0, 9)]
     if tier != 'quick':
         variants += [(0, 0, 7), (6, 0, 7), (6, 0, 2)]
-    names = {1: 'objectSize', 2: 'compressionMethod', 4: 'uncompressedFileSize', 7: 'all_three', 0: ''}
+    names = {1: 'objectSize', 2: 'compressionMethod', 4: 'uncompressedFileSize', 7: 'all_three', 0: '', 9: 'objectSize_and_objectType'}
     for lvl, mode, fields in variants:
         ts.append(Task('file.hostile_%s_l%d' % ('container_' + names[fields] if mode == 0 else 'object_multi', lvl),
                        '#define VP_FS_CAP 4096\n#define CFG_LEVEL %d\n#define MODE %d\n#define FIELDS %d\n' % (lvl, mode, fields or 7) + csrc,
